@@ -404,6 +404,60 @@ func C13(p *core.Program, r *core.Report) {
 			return false
 		}
 		if e.key != "" {
+			// the previous node is looked for on every path: a return in front of the look-up is excused only by the
+			// bundle not being in the store (an early return added for another concern - stale link-state data, a
+			// metadata bundle - must not skip the bookkeeping)
+			isLookup := func(i ssa.Instruction) bool {
+				c, ok := i.(*ssa.Call)
+				if !ok || !core.NameIs(core.CalleeName(c), bp7+".Bundle.ExtensionBlock") {
+					return false
+				}
+				k, isC := core.ConstInt(core.Arg(c, 0))
+				return isC && k == constVal(p, bp7, "ExtBlockTypePreviousNodeBlock")
+			}
+			skipped := ""
+			for _, ret := range core.Returns(fn) {
+				if core.MustPassBefore(ret, isLookup) {
+					continue
+				}
+				excused := false
+				for _, cd := range core.DominatingConds(ret.Block()) {
+					x, isNil, ok := core.NilCmp(cd)
+					if !ok || isNil {
+						continue
+					}
+					for _, qc := range core.CallsTo(fn, storagePkg+".Store.QueryId") {
+						if isResultOf(x, qc.(ssa.Value)) {
+							excused = true
+						}
+					}
+					for _, qc := range core.CallsTo(fn, routingPkg+".BundleDescriptor.Bundle") {
+						if isResultOf(x, qc.(ssa.Value)) {
+							excused = true // the bundle cannot be loaded
+						}
+					}
+				}
+				// PRoPHET's own metadata bundles are sent to one neighbour and are not replicated: the branch that
+				// handles them (behind the successful look-up of the PRoPHET block) leaves without bookkeeping.
+				// DTLSR's link-state bundles ARE replicated (broadcast), so there is no such excuse for DTLSR.
+				if fn.Signature.Recv() != nil && strings.Contains(fn.Signature.Recv().Type().String(), "Prophet") {
+					for _, cd := range core.DominatingConds(ret.Block()) {
+						x, isNil, ok := core.NilCmp(cd)
+						if !ok || !isNil {
+							continue
+						}
+						for _, ec := range core.CallsTo(fn, bp7+".Bundle.ExtensionBlock") {
+							if k, isC := core.ConstInt(core.Arg(ec, 0)); isC && k == constVal(p, bp7, "ExtBlockTypeProphetBlock") && isResultOf(x, ec.(ssa.Value)) {
+								excused = true
+							}
+						}
+					}
+				}
+				if !excused {
+					skipped = p.Pos(ret.Pos())
+				}
+			}
+			r.Check(skipped == "", base+"looked-for-on-every-path", "every path through NotifyNewBundle reaches the look-up of the previous-node block (a return before it is excused only when the bundle is not in the store)", p.Pos(fn.Pos()), "", "the return at "+skipped+" leaves before the previous node is looked for: such a bundle is later offered to the peer it came from")
 			okP, why := sentListPersisted(fn, e.key, dep)
 			r.Check(okP, base+"recorded", "the node a bundle came from is appended to the bundle's sent list and persisted, so it is never chosen", p.Pos(eps[0].Pos()), "", why)
 		} else {
